@@ -280,10 +280,10 @@ def shards(tier, seed):
     out = [dict(kind='degenerate')]
     for k in range(8):
         out.append(dict(kind='orders', seed=seed * 1000 + 50 + k,
-                        n=2 if tier == 'quick' else 12))
+                        n=2 if tier == 'quick' else 40))
     for k in range(8):
         out.append(dict(kind='hyp', seed=seed * 1000 + k,
-                        n=120 if tier == 'quick' else 3000))
+                        n=120 if tier == 'quick' else 10000))
     return out
 
 
